@@ -1,7 +1,17 @@
-(* Model of shell/shell.go: the Scanner (Next/Text/Complete/Rest/Split/Each), Split, Quote, Join.
-   Definitions only; everything that is data (transducer table, byte classes, character sets,
-   Complete's state set, Next's end-of-input rule, initial states) comes from Gen/ShellTable.v,
-   regenerated from the Go source on every run. *)
+(* Model of shell/shell.go: the Scanner (Next/Text/Complete/Err/Rest/Reset/Split/Each), Split,
+   quotable, Quote, quote, Join.  Definitions only.
+
+   Everything that is data (transducer table, byte classes, character sets, Complete's state set,
+   Next's end-of-input rule, initial states) AND the control skeleton the translator can read from
+   the function bodies (what each action of Next's switch does with the byte, whether Next tests
+   the error latch / clears the token / latches the error, what Rest and Reset assign, that Split
+   resets its pooled scanner, quotable's if-chain, the guards that open Quote and quote in source
+   order, the body of quote's loop and its epilogue, Join's separator) comes from
+   Gen/ShellTable.v, regenerated from the Go source on every run.  What remains hand-written here
+   is the plumbing between those facts: the recursion over the input bytes, the record of scanner
+   fields, the loops of Scanner.Split/Each.  Shell/ShellSkel.v proves that this model equals the
+   readable statement-by-statement transcription [Hand] (those lemmas are the ones that break at
+   make when a skeleton fact changes). *)
 From Coq Require Import NArith List Bool.
 Import ListNotations.
 From Mds Require Import Gen.ShellTable.
@@ -18,8 +28,8 @@ Definition state_eqb (a b : state) : bool :=
 
 (* The byte loop of Scanner.Next from state [s] with current token [acc]. *)
 Inductive next_res :=
-| NPanic                                         (* update[st][class] out of range *)
-| NEmit (tok : bytes) (rest : bytes) (s : state) (* the emit action: return true *)
+| NPanic                                         (* update[st][class] out of range, or panic("unknown action") *)
+| NEmit (tok : bytes) (rest : bytes) (s : state) (* an action that returns true *)
 | NEof (has : bool) (tok : bytes) (s : state).   (* io.EOF: return st != stBreak *)
 
 Fixpoint scan_next (inp : bytes) (s : state) (acc : bytes) : next_res :=
@@ -29,34 +39,49 @@ Fixpoint scan_next (inp : bytes) (s : state) (acc : bytes) : next_res :=
     match update s (class_of c) with
     | None => NPanic
     | Some (s', a) =>
-      match a with
-      | push => scan_next rest s' (acc ++ [c])
-      | xpush => scan_next rest s' (acc ++ [92; c])
-      | emit => NEmit acc rest s'
-      | drop => scan_next rest s' acc
+      match apply_action a c acc with
+      | (acc', AContinue) => scan_next rest s' acc'
+      | (acc', AEmit) => NEmit acc' rest s'
+      | (_, APanic) => NPanic
       end
     end
   end.
 
-(* ---- the Scanner object ---- *)
+(* ---- the Scanner object: unread input, state, current token, the err latch (err = io.EOF) ---- *)
 Record scanner := { inp : bytes; st : state; cur : bytes; eof : bool }.
 
 Definition new_scanner (i : bytes) : scanner := {| inp := i; st := new_state; cur := []; eof := false |}.
-Definition reset (i : bytes) : scanner := {| inp := i; st := reset_state; cur := []; eof := false |}.
+
+(* Scanner.Reset(r) on a scanner in ANY state *)
+Definition reset_sc (sc : scanner) (i : bytes) : scanner :=
+  {| inp := if reset_rebinds then i else inp sc;
+     st := reset_state;
+     cur := if reset_clears_cur then [] else cur sc;
+     eof := if reset_clears_err then false else eof sc |}.
+
+(* the scanner the pool's New function makes: NewScanner(nil) *)
+Definition pool_new : scanner := new_scanner [].
+Definition reset (i : bytes) : scanner := reset_sc pool_new i.
 
 (* None = panic *)
 Definition next (sc : scanner) : option (scanner * bool) :=
-  if eof sc then Some (sc, false)
-  else match scan_next (inp sc) (st sc) [] with
+  if next_checks_latch && eof sc then Some (sc, false)
+  else match scan_next (inp sc) (st sc) (if next_clears_cur then [] else cur sc) with
        | NPanic => None
-       | NEmit tok rest s' => Some ({| inp := rest; st := s'; cur := tok; eof := false |}, true)
-       | NEof has tok s' => Some ({| inp := []; st := s'; cur := tok; eof := true |}, has)
+       | NEmit tok rest s' =>
+         Some ({| inp := rest; st := s'; cur := tok; eof := if next_latches_err then false else eof sc |}, true)
+       | NEof has tok s' =>
+         Some ({| inp := []; st := s'; cur := tok; eof := if next_latches_err then true else eof sc |}, has)
        end.
 
 Definition text (sc : scanner) : bytes := cur sc.
 Definition complete (sc : scanner) : bool := complete_state (st sc).
+Definition err_eof (sc : scanner) : bool := eof sc.          (* Err() == io.EOF; otherwise nil *)
+(* Rest, and reading everything from the reader it returns *)
 Definition rest (sc : scanner) : scanner * bytes :=
-  ({| inp := []; st := rest_state; cur := []; eof := true |}, inp sc).
+  ({| inp := []; st := rest_state;
+      cur := if rest_clears_cur then [] else cur sc;
+      eof := if rest_latches then true else eof sc |}, inp sc).
 
 (* Scanner.Split: call Next until it reports false.  Every true Next with eof = false consumed at
    least one byte, so fuel = length + 2 is always enough; running out is reported as None. *)
@@ -74,45 +99,79 @@ Fixpoint split_loop (fuel : nat) (sc : scanner) (toks : list bytes) : option (sc
 Definition scanner_split (sc : scanner) : option (scanner * list bytes) :=
   split_loop (S (S (length (inp sc)))) sc [].
 
-(* shell.Split *)
-Definition split (s : bytes) : option (list bytes * bool) :=
-  match scanner_split (reset s) with
-  | None => None
-  | Some (sc, toks) => Some (toks, complete sc)
+(* Scanner.Each with a callback that returns false at its [stop]-th call (0: never) *)
+Fixpoint each_loop (fuel : nat) (sc : scanner) (stop : nat) (toks : list bytes) : option (scanner * list bytes) :=
+  match fuel with
+  | O => None
+  | S f =>
+    match next sc with
+    | None => None
+    | Some (sc', true) =>
+      let toks' := toks ++ [text sc'] in
+      if Nat.eqb (length toks') stop then Some (sc', toks') else each_loop f sc' stop toks'
+    | Some (sc', false) => Some (sc', toks)
+    end
   end.
 
-(* ---- Quote / Join ---- *)
+Definition scanner_each (sc : scanner) (stop : nat) : option (scanner * list bytes) :=
+  each_loop (S (S (length (inp sc)))) sc stop [].
+
+(* shell.Split with the pooled scanner in state [sc] *)
+Definition split_from (sc : scanner) (s : bytes) : option (list bytes * bool) :=
+  match scanner_split (if split_resets then reset_sc sc s else sc) with
+  | None => None
+  | Some (sc', toks) => Some (toks, complete sc')
+  end.
+
+(* shell.Split (first use of the pool) *)
+Definition split (s : bytes) : option (list bytes * bool) := split_from pool_new s.
+
+(* ---- quotable / Quote / quote / Join ---- *)
 Definition mem (b : N) (l : list N) : bool := existsb (N.eqb b) l.
 
-(* quotable: the early exit (v < all) does not change the result *)
-Definition has_q (s : bytes) : bool := existsb (N.eqb 39) s.
-Definition has_other (s : bytes) : bool := existsb (fun b => negb (N.eqb b 39) && mem b allQuote) s.
+(* quotable: the flags are OR-ed over the bytes (the early exit v < all does not change the result) *)
+Definition byte_flags (b : N) : bool * bool := quotable_step (N.eqb b quotable_char) (mem b quotable_set).
+Definition has_q (s : bytes) : bool := existsb (fun b => fst (byte_flags b)) s.
+Definition has_other (s : bytes) : bool := existsb (fun b => snd (byte_flags b)) s.
+
+Definition is_empty (s : bytes) : bool := match s with [] => true | _ => false end.
 
 Fixpoint quote_loop (s : bytes) (inq : bool) (hasOther : bool) : bytes :=
   match s with
-  | [] => if inq then [39] else []
-  | ch :: rest =>
-    if N.eqb ch 39 then
-      (if inq then [39] else []) ++ [92; ch] ++ quote_loop rest false hasOther
-    else if negb inq && hasOther then
-      [39; ch] ++ quote_loop rest true hasOther
-    else ch :: quote_loop rest inq hasOther
+  | [] => quote_end inq hasOther
+  | ch :: rest => let '(out, inq') := quote_step ch inq hasOther in out ++ quote_loop rest inq' hasOther
   end.
 
+(* quote(s, buf): what is appended to buf *)
+Definition quote_buf (s : bytes) : bytes :=
+  match quote_head (is_empty s) (has_q s) (has_other s) with
+  | HLit l => l
+  | HCopy => s
+  | HLoop => quote_loop s quote_inq0 (has_other s)
+  end.
+
+(* Quote *)
 Definition quote (s : bytes) : bytes :=
-  match s with
-  | [] => [39; 39]
-  | _ => if negb (has_q s) && negb (has_other s) then s else quote_loop s false (has_other s)
+  match Quote_head (is_empty s) (has_q s) (has_other s) with
+  | HLit l => l
+  | HCopy => s
+  | HLoop => quote_buf s
   end.
 
-Fixpoint join (ss : list bytes) : bytes :=
+(* Join: empty list -> empty text; quote(ss[0], buf); for the others: separator, quote(s, buf) *)
+Fixpoint join_tail (ss : list bytes) : bytes :=
   match ss with
   | [] => []
-  | [s] => quote s
-  | s :: rest => quote s ++ [32] ++ join rest
+  | s :: rest => join_sep ++ quote_buf s ++ join_tail rest
   end.
 
-(* ---- a scripted Scanner session, as the correspondence harness drives it ---- *)
+Definition join (ss : list bytes) : bytes :=
+  match ss with
+  | [] => []
+  | s :: rest => quote_buf s ++ join_tail rest
+  end.
+
+(* ---- a scripted Scanner session of Next/Rest calls, as the correspondence harness drives it ---- *)
 Inductive sc_op := ONext | ORest.
 Inductive sc_out :=
 | RNext (ok : bool) (txt : bytes) (cmpl : bool)
@@ -136,4 +195,39 @@ Fixpoint run_sc (sc : scanner) (ops : list sc_op) : option scanner :=
   | [] => Some sc
   | ONext :: ops' => match next sc with None => None | Some (sc', _) => run_sc sc' ops' end
   | ORest :: ops' => run_sc (fst (rest sc)) ops'
+  end.
+
+(* ---- sessions over the whole API: also Err, Reset (to a fresh reader of the session's input
+   [src]), Scanner.Split and Each ---- *)
+Inductive sc_opx := XNext | XRest | XErr | XReset | XSplit | XEach (stop : nat).
+Inductive sc_outx :=
+| XRNext (ok : bool) (txt : bytes) (cmpl : bool)
+| XRRest (r : bytes)
+| XRErr (is_eof : bool)
+| XRReset
+| XRSplit (toks : list bytes) (txt : bytes) (cmpl : bool)   (* tokens; Text and Complete afterwards *)
+| XREach (toks : list bytes) (txt : bytes) (cmpl : bool)    (* tokens passed to the callback; Text, Complete afterwards *)
+| XRPanic.
+
+Fixpoint run_opsx (src : bytes) (sc : scanner) (ops : list sc_opx) : list sc_outx :=
+  match ops with
+  | [] => []
+  | XNext :: ops' =>
+    match next sc with
+    | None => [XRPanic]
+    | Some (sc', ok) => XRNext ok (text sc') (complete sc') :: run_opsx src sc' ops'
+    end
+  | XRest :: ops' => let '(sc', r) := rest sc in XRRest r :: run_opsx src sc' ops'
+  | XErr :: ops' => XRErr (err_eof sc) :: run_opsx src sc ops'
+  | XReset :: ops' => XRReset :: run_opsx src (reset_sc sc src) ops'
+  | XSplit :: ops' =>
+    match scanner_split sc with
+    | None => [XRPanic]
+    | Some (sc', toks) => XRSplit toks (text sc') (complete sc') :: run_opsx src sc' ops'
+    end
+  | XEach stop :: ops' =>
+    match scanner_each sc stop with
+    | None => [XRPanic]
+    | Some (sc', toks) => XREach toks (text sc') (complete sc') :: run_opsx src sc' ops'
+    end
   end.
